@@ -321,8 +321,11 @@ Definition vis_after (e : bevent) (t : nat) (old : list N) : list N :=
 Lemma appended_step t e es acc : appended t (e :: es) acc = appended t es (vis_after e t acc).
 Proof. destruct e; reflexivity. Qed.
 
-Lemma bstep_ok mincap s e s' :
-  BInv s -> Clean s -> grows s e -> bstep mincap s e = Some s' ->
+Lemma clear_upto_ge v sl : sl_len sl <= clear_upto v sl.
+Proof. destruct v; cbn; lia. Qed.
+
+Lemma bstep_ok v mincap s e s' :
+  BInv s -> Clean s -> grows s e -> bstep v mincap s e = Some s' ->
   BInv s' /\ forall t, visible s' t = vis_after e t (visible s t).
 Proof.
   intros [Hlt Huq Hplt Hsep] [Hch Hcp] Hgr Hst.
@@ -485,8 +488,8 @@ Proof.
 Qed.
 
 (* cleanliness is preserved as long as nobody shrinks *)
-Lemma bstep_clean mincap s e s' :
-  BInv s -> Clean s -> grows s e -> bstep mincap s e = Some s' -> Clean s'.
+Lemma bstep_clean v mincap s e s' :
+  BInv s -> Clean s -> grows s e -> bstep v mincap s e = Some s' -> Clean s'.
 Proof.
   intros [Hlt Huq Hplt Hsep] [Hch Hcp] Hgr Hst.
   destruct e as [t0 capacity c|t0 data|t0 n|t0]; cbn [bstep] in Hst.
@@ -498,8 +501,8 @@ Proof.
       constructor; cbn [b_heap b_pool b_held].
       * intros t sl1 j. upd_cases t t0.
         -- intros E Hj. inversion E; subst. cbn [sl_buf]. rewrite upd_same. unfold zero_prefix.
-           destruct (j <? sl_len sl) eqn:Ej; [reflexivity|]. apply Nat.ltb_ge in Ej.
-           apply Hcp; assumption.
+           destruct (j <? clear_upto v sl) eqn:Ej; [reflexivity|]. apply Nat.ltb_ge in Ej.
+           apply Hcp; [assumption|]. pose proof (clear_upto_ge v sl). lia.
         -- intros E Hj. rewrite upd_other; [eapply Hch; eassumption|].
            intro E3. eapply Hsep; [exact E | exact Hin | symmetry; exact E3].
       * intros sl1 j H0 Hj. apply filter_In in H0. destruct H0 as [H0 H1].
@@ -547,41 +550,293 @@ Proof.
     + intros sl1 j [H0|H0] Hj; [subst; eapply Hch; eassumption | apply Hcp; assumption].
 Qed.
 
-Lemma brun_gen mincap es : forall s s' (acc : nat -> list N),
-  BInv s -> Clean s -> (forall t, visible s t = acc t) -> brun mincap s es = Some s' ->
-  grows_only mincap s es ->
+Lemma brun_gen v mincap es : forall s s' (acc : nat -> list N),
+  BInv s -> Clean s -> (forall t, visible s t = acc t) -> brun v mincap s es = Some s' ->
+  grows_only v mincap s es ->
   forall t, visible s' t = appended t es (acc t).
 Proof.
   induction es as [|e es IH]; intros s s' acc I C Hv H G t; cbn [brun] in H.
   - inversion H; subst. cbn. apply Hv.
   - cbn [grows_only] in G. destruct G as [G1 G2].
-    destruct (bstep mincap s e) as [s1|] eqn:E; [|discriminate].
-    destruct (bstep_ok mincap s e s1 I C G1 E) as [I1 Hv1].
-    pose proof (bstep_clean mincap s e s1 I C G1 E) as C1.
+    destruct (bstep v mincap s e) as [s1|] eqn:E; [|discriminate].
+    destruct (bstep_ok v mincap s e s1 I C G1 E) as [I1 Hv1].
+    pose proof (bstep_clean v mincap s e s1 I C G1 E) as C1.
     rewrite appended_step.
     apply (IH s1 s' (fun t => vis_after e t (acc t)) I1 C1); [|exact H|exact G2].
     intro t1. rewrite Hv1, Hv. reflexivity.
 Qed.
 
-Theorem byteslicepool_no_carry mincap : no_carry mincap.
+Lemma BInv_init h0 : BInv (binit h0).
+Proof. constructor; cbn; intros; try discriminate; contradiction. Qed.
+
+Theorem byteslicepool_exact v mincap : exact_when_growing v mincap.
 Proof.
   intros h0 es s t H G.
-  apply (brun_gen mincap es (binit h0) s (fun _ => [])); [| | |exact H|exact G].
-  - constructor; cbn; intros; try discriminate; contradiction.
+  apply (brun_gen v mincap es (binit h0) s (fun _ => [])); [apply BInv_init| | |exact H|exact G].
   - constructor; cbn; intros; try discriminate; contradiction.
   - intro t1. reflexivity.
 Qed.
 
-(* without that restriction the statement is false OF THE TREE: a caller that shrinks its slice
-   with Resize and then Puts it leaves its bytes behind the length Get clears up to, and the next
-   caller's Resize shows them *)
+(* ---- the fixed Get (clears the whole capacity): only zeroes or own bytes, whatever callers do *)
+
+Record OwnZ (W : nat -> list N) (s : bstate) : Prop := mkOwnZ {
+  oz_cap : forall t sl, b_held s t = Some sl -> sl_len sl <= sl_cap sl;
+  oz_own : forall t sl j, b_held s t = Some sl -> j < sl_cap sl ->
+                          b_heap s (sl_buf sl) j = 0%N \/ In (b_heap s (sl_buf sl) j) (W t)
+}.
+
+Definition w_after (e : bevent) (t : nat) (old : list N) : list N :=
+  match e with
+  | BGet t' _ _ => if t' =? t then [] else old
+  | BAppend t' d => if t' =? t then old ++ d else old
+  | BResize _ _ => old
+  | BPut t' => if t' =? t then [] else old
+  end.
+
+Lemma written_step t e es acc : written t (e :: es) acc = written t es (w_after e t acc).
+Proof. destruct e; reflexivity. Qed.
+
+Lemma wr_zero_cases l j :
+  wr (fun _ => 0%N) 0 l j = 0%N \/ In (wr (fun _ => 0%N) 0 l j) l.
+Proof.
+  unfold wr. destruct ((0 <=? j) && (j <? 0 + length l)) eqn:E; [right | left; reflexivity].
+  apply andb_true_iff in E. destruct E as [_ E]. apply Nat.ltb_lt in E. apply nth_In. lia.
+Qed.
+
+Lemma in_rd h len x : In x (rd h 0 len) -> exists j, j < len /\ x = h j.
+Proof.
+  unfold rd. intro H. apply in_map_iff in H. destruct H as [j [E Hj]]. apply in_seq in Hj.
+  exists j. split; [lia | symmetry; exact E].
+Qed.
+
+Lemma bstep_ownz mincap W s e s' :
+  BInv s -> OwnZ W s -> bstep Fixed mincap s e = Some s' ->
+  OwnZ (fun t => w_after e t (W t)) s'.
+Proof.
+  intros [Hlt Huq Hplt Hsep] [Hcap Hown] Hst.
+  assert (Hold : forall sl x, b_held s = b_held s -> forall t, b_held s t = Some sl ->
+                 In x (rd (b_heap s (sl_buf sl)) 0 (sl_len sl)) -> x = 0%N \/ In x (W t)).
+  { intros sl x _ t E Hin. apply in_rd in Hin. destruct Hin as [j [Hj ->]].
+    eapply Hown; [exact E|]. pose proof (Hcap _ _ E). lia. }
+  destruct e as [t0 capacity c|t0 data|t0 n|t0]; cbn [bstep] in Hst.
+  - destruct (b_held s t0) eqn:Eh; [discriminate|].
+    destruct (match c with Some b => find (has_buf b) (b_pool s) | None => None end) as [sl|] eqn:Ef;
+      inversion Hst; subst; clear Hst.
+    + assert (Hin : In sl (b_pool s)).
+      { destruct c as [b|]; [|discriminate]. apply find_some in Ef. apply Ef. }
+      constructor; cbn [b_heap b_pool b_held w_after].
+      * intros t sl1. upd_cases t t0.
+        -- intro E. inversion E; subst. cbn. lia.
+        -- apply Hcap.
+      * intros t sl1 j. upd_cases t t0.
+        -- intros E Hj. inversion E; subst. cbn [sl_buf sl_cap] in *. rewrite upd_same.
+           left. unfold zero_prefix, clear_upto.
+           assert (E1 : (j <? Nat.max (sl_len sl) (sl_cap sl)) = true) by (apply Nat.ltb_lt; lia).
+           rewrite E1. reflexivity.
+        -- intros E Hj. rewrite (proj2 (Nat.eqb_neq t0 t)) by congruence.
+           rewrite upd_other; [eapply Hown; eassumption|].
+           intro E3. eapply Hsep; [exact E | exact Hin | symmetry; exact E3].
+    + constructor; cbn [b_heap b_pool b_held w_after].
+      * intros t sl1. upd_cases t t0.
+        -- intro E. inversion E; subst. cbn. lia.
+        -- apply Hcap.
+      * intros t sl1 j. upd_cases t t0.
+        -- intros E Hj. inversion E; subst. cbn [sl_buf]. rewrite upd_same. left. reflexivity.
+        -- intros E Hj. rewrite (proj2 (Nat.eqb_neq t0 t)) by congruence.
+           rewrite upd_other; [eapply Hown; eassumption|]. apply Hlt in E. lia.
+  - destruct (b_held s t0) as [sl|] eqn:Eh; [|discriminate].
+    destruct (sl_len sl + length data <=? sl_cap sl) eqn:Efit; inversion Hst; subst; clear Hst.
+    + apply Nat.leb_le in Efit.
+      constructor; cbn [b_heap b_pool b_held w_after].
+      * intros t sl1. upd_cases t t0.
+        -- intro E. inversion E; subst. cbn. exact Efit.
+        -- apply Hcap.
+      * intros t sl1 j. upd_cases t t0.
+        -- intros E Hj. inversion E; subst. cbn [sl_buf sl_cap] in *. rewrite upd_same, Nat.eqb_refl.
+           unfold wr. destruct ((sl_len sl <=? j) && (j <? sl_len sl + length data)) eqn:Ec.
+           ++ right. apply in_or_app. right. apply andb_true_iff in Ec. destruct Ec as [E1 E2].
+              apply Nat.leb_le in E1. apply Nat.ltb_lt in E2. apply nth_In. lia.
+           ++ destruct (Hown _ _ j Eh Hj) as [H0|H0]; [left; exact H0 | right; apply in_or_app; left; exact H0].
+        -- intros E Hj. rewrite (proj2 (Nat.eqb_neq t0 t)) by congruence.
+           rewrite upd_other; [eapply Hown; eassumption|].
+           intro E3. apply n. eapply Huq; [exact E | exact Eh | exact E3].
+    + constructor; cbn [b_heap b_pool b_held w_after].
+      * intros t sl1. upd_cases t t0.
+        -- intro E. inversion E; subst. cbn. lia.
+        -- apply Hcap.
+      * intros t sl1 j. upd_cases t t0.
+        -- intros E Hj. inversion E; subst. cbn [sl_buf]. rewrite upd_same, Nat.eqb_refl.
+           destruct (wr_zero_cases (rd (b_heap s (sl_buf sl)) 0 (sl_len sl) ++ data) j) as [H0|H0];
+             [left; exact H0|].
+           apply in_app_or in H0. destruct H0 as [H0|H0].
+           ++ destruct (Hold sl _ eq_refl t0 Eh H0) as [H1|H1];
+                [left; exact H1 | right; apply in_or_app; left; exact H1].
+           ++ right. apply in_or_app. right. exact H0.
+        -- intros E Hj. rewrite (proj2 (Nat.eqb_neq t0 t)) by congruence.
+           rewrite upd_other; [eapply Hown; eassumption|]. apply Hlt in E. lia.
+  - destruct (b_held s t0) as [sl|] eqn:Eh; [|discriminate].
+    destruct (n <? sl_cap sl) eqn:Efit; inversion Hst; subst; clear Hst.
+    + apply Nat.ltb_lt in Efit.
+      constructor; cbn [b_heap b_pool b_held w_after].
+      * intros t sl1. upd_cases t t0.
+        -- intro E. inversion E; subst. cbn. lia.
+        -- apply Hcap.
+      * intros t sl1 j. upd_cases t t0.
+        -- intros E Hj. inversion E; subst. cbn [sl_buf sl_cap] in *. eapply Hown; eassumption.
+        -- intros E Hj. eapply Hown; eassumption.
+    + constructor; cbn [b_heap b_pool b_held w_after].
+      * intros t sl1. upd_cases t t0.
+        -- intro E. inversion E; subst. cbn. lia.
+        -- apply Hcap.
+      * intros t sl1 j. upd_cases t t0.
+        -- intros E Hj. inversion E; subst. cbn [sl_buf]. rewrite upd_same.
+           destruct (wr_zero_cases (rd (b_heap s (sl_buf sl)) 0 (sl_len sl)) j) as [H0|H0];
+             [left; exact H0|].
+           exact (Hold sl _ eq_refl t0 Eh H0).
+        -- intros E Hj. rewrite upd_other; [eapply Hown; eassumption|]. apply Hlt in E. lia.
+  - destruct (b_held s t0) as [sl|] eqn:Eh; [|discriminate].
+    inversion Hst; subst; clear Hst.
+    constructor; cbn [b_heap b_pool b_held w_after].
+    + intros t sl1. upd_cases t t0; [discriminate | apply Hcap].
+    + intros t sl1 j. upd_cases t t0; [discriminate|].
+      intros E Hj. rewrite (proj2 (Nat.eqb_neq t0 t)) by congruence. eapply Hown; eassumption.
+Qed.
+
+(* ownership alone is preserved by every step (no cleanliness / growth needed) *)
+Lemma bstep_binv mincap s e s' : BInv s -> bstep Fixed mincap s e = Some s' -> BInv s'.
+Proof.
+  intros [Hlt Huq Hplt Hsep] Hst.
+  destruct e as [t0 capacity c|t0 data|t0 n|t0]; cbn [bstep] in Hst.
+  - destruct (b_held s t0) eqn:Eh; [discriminate|].
+    destruct (match c with Some b => find (has_buf b) (b_pool s) | None => None end) as [sl|] eqn:Ef;
+      inversion Hst; subst; clear Hst.
+    + assert (Hin : In sl (b_pool s)).
+      { destruct c as [b|]; [|discriminate]. apply find_some in Ef. apply Ef. }
+      constructor; cbn [b_heap b_pool b_next b_held].
+      * intros t sl0. upd_cases t t0; [|apply Hlt].
+        intro E. inversion E; subst. cbn. apply Hplt. exact Hin.
+      * intros t t' sl1 sl2. upd_cases t t0; upd_cases t' t0; try reflexivity.
+        -- intros E1 E2 E3. inversion E1; subst. cbn in E3. exfalso.
+           eapply Hsep; [exact E2 | exact Hin | exact E3].
+        -- intros E1 E2 E3. inversion E2; subst. cbn in E3. exfalso.
+           eapply Hsep; [exact E1 | exact Hin | symmetry; exact E3].
+        -- apply Huq.
+      * intros sl0 H0. apply filter_In in H0. apply Hplt. apply H0.
+      * intros t sl1 sl2. upd_cases t t0.
+        -- intros E H0. inversion E; subst. cbn. apply filter_In in H0. destruct H0 as [_ H0].
+           unfold has_buf in H0. apply negb_true_iff, Nat.eqb_neq in H0. exact H0.
+        -- intros E H0. apply filter_In in H0. eapply Hsep; [exact E | apply H0].
+    + constructor; cbn [b_heap b_pool b_next b_held].
+      * intros t sl0. upd_cases t t0.
+        -- intro E. inversion E; subst. cbn. lia.
+        -- intro E. apply Hlt in E. lia.
+      * intros t t' sl1 sl2. upd_cases t t0; upd_cases t' t0; try reflexivity.
+        -- intros E1 E2 E3. inversion E1; subst. cbn in E3. apply Hlt in E2. lia.
+        -- intros E1 E2 E3. inversion E2; subst. cbn in E3. apply Hlt in E1. lia.
+        -- apply Huq.
+      * intros sl0 H0. apply Hplt in H0. lia.
+      * intros t sl1 sl2. upd_cases t t0.
+        -- intros E H0. inversion E; subst. cbn. apply Hplt in H0. lia.
+        -- apply Hsep.
+  - destruct (b_held s t0) as [sl|] eqn:Eh; [|discriminate].
+    destruct (sl_len sl + length data <=? sl_cap sl); inversion Hst; subst; clear Hst.
+    + constructor; cbn [b_heap b_pool b_next b_held].
+      * intros t sl0. upd_cases t t0; [|apply Hlt].
+        intro E. inversion E; subst. cbn. eapply Hlt; exact Eh.
+      * intros t t' sl1 sl2. upd_cases t t0; upd_cases t' t0; try reflexivity.
+        -- intros E1 E2 E3. inversion E1; subst. cbn in E3. eapply Huq; eassumption.
+        -- intros E1 E2 E3. inversion E2; subst. cbn in E3. eapply Huq; eassumption.
+        -- apply Huq.
+      * exact Hplt.
+      * intros t sl1 sl2. upd_cases t t0; [|apply Hsep].
+        intros E H0. inversion E; subst. cbn. eapply Hsep; eassumption.
+    + constructor; cbn [b_heap b_pool b_next b_held].
+      * intros t sl0. upd_cases t t0.
+        -- intro E. inversion E; subst. cbn. lia.
+        -- intro E. apply Hlt in E. lia.
+      * intros t t' sl1 sl2. upd_cases t t0; upd_cases t' t0; try reflexivity.
+        -- intros E1 E2 E3. inversion E1; subst. cbn in E3. apply Hlt in E2. lia.
+        -- intros E1 E2 E3. inversion E2; subst. cbn in E3. apply Hlt in E1. lia.
+        -- apply Huq.
+      * intros sl0 H0. apply Hplt in H0. lia.
+      * intros t sl1 sl2. upd_cases t t0; [|apply Hsep].
+        intros E H0. inversion E; subst. cbn. apply Hplt in H0. lia.
+  - destruct (b_held s t0) as [sl|] eqn:Eh; [|discriminate].
+    destruct (n <? sl_cap sl); inversion Hst; subst; clear Hst.
+    + constructor; cbn [b_heap b_pool b_next b_held].
+      * intros t sl0. upd_cases t t0; [|apply Hlt].
+        intro E. inversion E; subst. cbn. eapply Hlt; exact Eh.
+      * intros t t' sl1 sl2. upd_cases t t0; upd_cases t' t0; try reflexivity.
+        -- intros E1 E2 E3. inversion E1; subst. cbn in E3. eapply Huq; eassumption.
+        -- intros E1 E2 E3. inversion E2; subst. cbn in E3. eapply Huq; eassumption.
+        -- apply Huq.
+      * exact Hplt.
+      * intros t sl1 sl2. upd_cases t t0; [|apply Hsep].
+        intros E H0. inversion E; subst. cbn. eapply Hsep; eassumption.
+    + constructor; cbn [b_heap b_pool b_next b_held].
+      * intros t sl0. upd_cases t t0.
+        -- intro E. inversion E; subst. cbn. lia.
+        -- intro E. apply Hlt in E. lia.
+      * intros t t' sl1 sl2. upd_cases t t0; upd_cases t' t0; try reflexivity.
+        -- intros E1 E2 E3. inversion E1; subst. cbn in E3. apply Hlt in E2. lia.
+        -- intros E1 E2 E3. inversion E2; subst. cbn in E3. apply Hlt in E1. lia.
+        -- apply Huq.
+      * intros sl0 H0. apply Hplt in H0. lia.
+      * intros t sl1 sl2. upd_cases t t0; [|apply Hsep].
+        intros E H0. inversion E; subst. cbn. apply Hplt in H0. lia.
+  - destruct (b_held s t0) as [sl|] eqn:Eh; [|discriminate].
+    inversion Hst; subst; clear Hst.
+    constructor; cbn [b_heap b_pool b_next b_held].
+    + intros t sl0. upd_cases t t0; [discriminate | apply Hlt].
+    + intros t t' sl1 sl2. upd_cases t t0; upd_cases t' t0; try discriminate. apply Huq.
+    + intros sl0 [H0|H0]; [subst; eapply Hlt; exact Eh | apply Hplt; exact H0].
+    + intros t sl1 sl2. upd_cases t t0; [discriminate|].
+      intros E [H0|H0].
+      * subst. intro E3. apply n. eapply Huq; [exact E | exact Eh | symmetry; exact E3].
+      * eapply Hsep; eassumption.
+Qed.
+
+Lemma brun_ownz mincap es : forall s s' (W : nat -> list N),
+  BInv s -> OwnZ W s -> brun Fixed mincap s es = Some s' ->
+  OwnZ (fun t => written t es (W t)) s'.
+Proof.
+  induction es as [|e es IH]; intros s s' W I O H; cbn [brun] in H.
+  - inversion H; subst. exact O.
+  - destruct (bstep Fixed mincap s e) as [s1|] eqn:E; [|discriminate].
+    pose proof (bstep_binv mincap s e s1 I E) as I1.
+    pose proof (bstep_ownz mincap W s e s1 I O E) as O1.
+    pose proof (IH s1 s' _ I1 O1 H) as O2.
+    destruct O2 as [Hc Ho]. constructor; [exact Hc|].
+    intros t sl j Eh Hj. rewrite written_step. apply Ho; assumption.
+Qed.
+
+Theorem byteslicepool_no_carry mincap : no_carry mincap.
+Proof.
+  intros h0 es s t x H Hin.
+  assert (O0 : OwnZ (fun _ => []) (binit h0)) by (constructor; cbn; intros; discriminate).
+  destruct (brun_ownz mincap es _ _ _ (BInv_init h0) O0 H) as [Hc Ho].
+  unfold visible in Hin. destruct (b_held s t) as [sl|] eqn:Eh; [|contradiction].
+  apply in_rd in Hin. destruct Hin as [j [Hj ->]].
+  apply (Ho t sl j Eh). pose proof (Hc t sl Eh). lia.
+Qed.
+
+(* the code before the fix: a caller that shrinks its slice with Resize and then Puts it leaves
+   its bytes behind the length Get cleared up to, and the next caller's Resize shows them *)
 Theorem byteslicepool_shrink_put_refuted :
-  exists mincap es s, brun mincap (binit (fun _ _ => 0%N)) es = Some s /\
-                      visible s 1 = [0; 7; 7]%N /\ appended 1 es [] = [0; 0; 0]%N.
+  exists mincap es s, brun Original mincap (binit (fun _ _ => 0%N)) es = Some s /\
+                      visible s 1 = [0; 7; 7]%N /\ written 1 es [] = [].
 Proof.
   exists 4, [BGet 0 8 None; BAppend 0 [7; 7; 7]%N; BResize 0 1; BPut 0; BGet 1 0 (Some 0); BResize 1 3].
   eexists. split; [vm_compute; reflexivity|]. split; vm_compute; reflexivity.
 Qed.
+
+Example shrink_put_fixed :
+  match brun Fixed 4 (binit (fun _ _ => 0%N))
+             [BGet 0 8 None; BAppend 0 [7; 7; 7]%N; BResize 0 1; BPut 0; BGet 1 0 (Some 0); BResize 1 3] with
+  | Some s => visible s 1
+  | None => []
+  end = [0; 0; 0]%N.
+Proof. vm_compute. reflexivity. Qed.
 
 (* a Put in the middle of a function that also has the deferred Put (an error path releasing the
    buffer twice): after that operation two later operations hold the SAME buffer at once *)
@@ -619,7 +874,7 @@ Example registry_run_ok :
 Proof. vm_compute. reflexivity. Qed.
 
 Example pool_run :
-  match brun 4 (binit (fun _ _ => 7%N))
+  match brun Fixed 4 (binit (fun _ _ => 7%N))
              [BGet 0 2 None; BAppend 0 [1; 2]%N; BPut 0; BGet 1 0 (Some 0); BAppend 1 [9]%N;
               BResize 1 3] with
   | Some s => Some (visible s 1, b_held s 1)
@@ -628,6 +883,6 @@ Example pool_run :
 Proof. vm_compute. reflexivity. Qed.
 
 Example pool_run_grows :
-  grows_only 4 (binit (fun _ _ => 7%N))
+  grows_only Fixed 4 (binit (fun _ _ => 7%N))
              [BGet 0 2 None; BAppend 0 [1; 2]%N; BPut 0; BGet 1 0 (Some 0); BAppend 1 [9]%N; BResize 1 3].
 Proof. cbn. repeat split; lia. Qed.
